@@ -775,8 +775,8 @@ Proof. exact borderline_window. Qed.
 Print Assumptions C17_check_borderline_window.
 
 (* Non-vacuity: real case lines (harness output on /repo; floats are IEEE-754 bit patterns) are accepted
-   with code 0, a real Log line with an undecided slack decision with code 1, and lines with one observed
-   number changed are rejected. *)
+   with code 0, a real Log line with an undecided slack decision and a real Linear line with a floor decision
+   inside the window with code 1, and lines with one observed number changed are rejected. *)
 End CheckSound.
 Section CheckExamples.
 Local Open Scope Z_scope.
@@ -827,6 +827,11 @@ Example C17_check_ok_examples :
       4636737291354636288; 4652007308841189376; 4666723172467343360; 2; 0; 4; 0; 4; 4621819117588971520; 4636737291354636288; 4652007308841189376; 
       4666723172467343360; 1; 2; 0; 2; 4636737291354636288; 4666723172467343360; 3; 0; 0; 0; 4607182418800017408; 4726483295884279808; 0; 
       4607182418800017408; 0; 4607182418800017408; 4726483295884279808; 0; 3; 4607182418800017408; 4666723172467343360; 4726483295884279808] /\
+  (* Linear [0, 1/(1+1e-10)] Max 8, levels -2..3: (max + slack)/spacing is within 1e-16 of the integer 1 (resp. 2, 10), the float floor lands on the other side: accepted as borderline *)
+  border [17; 1; 0; 0; 4607182418799116688; 8; -2; 3; 0; 3; 0; 4602678819172646912; 4607182418800017408; 11; 0; 4591870180066957722; 4596373779694328218; 
+      4599075939470750515; 4600877379321698714; 4602678819172646912; 4603579539098121011; 4604480259023595110; 4605380978949069210; 4606281698874543309; 
+      4607182418800017408; 1; 0; 2; 0; 2; 0; 4607182418800017408; 8; -2; 3; 0; 0; 4607182418800017408; 0; 4607182418800017408; 0; 0; 4607182418800017408; 
+      0; 3; 0; 4602678819172646912; 4607182418800017408] /\
   (* Log base 10 [-0.08, -0.007], a slack decision of log_exps undecided: accepted as borderline *)
   border [17; 2; 10; 13813801065040974971; 13798092509540706681; 7; -1; -2; 0; 0; 0; 5; -1; 9223372036854775807; 0; 11; 13813801065040974971; 
       13813080489100595692; 13812179769175121593; 13810738617294363034; 13809297465413604475; 13807676169547751096; 13804793865786233979; 
